@@ -1942,7 +1942,7 @@ static void state_read_content(struct snapraid_state* state, const char* path, S
 					/* LCOV_EXCL_STOP */
 				}
 
-				if (v_idx + v_count > file->blockmax) {
+				if (v_count > file->blockmax - v_idx) {
 					/* LCOV_EXCL_START */
 					decoding_error(path, f);
 					log_fatal("Internal inconsistency: Block number out of range\n");
@@ -1950,7 +1950,7 @@ static void state_read_content(struct snapraid_state* state, const char* path, S
 					/* LCOV_EXCL_STOP */
 				}
 
-				if (v_pos + v_count > blockmax) {
+				if (v_pos > blockmax || v_count > blockmax - v_pos) {
 					/* LCOV_EXCL_START */
 					decoding_error(path, f);
 					log_fatal("Internal inconsistency: Block size %u/%u!\n", blockmax, v_pos + v_count);
@@ -2074,7 +2074,7 @@ static void state_read_content(struct snapraid_state* state, const char* path, S
 					/* LCOV_EXCL_STOP */
 				}
 
-				if (v_pos + v_count > blockmax) {
+				if (v_count > blockmax - v_pos) {
 					/* LCOV_EXCL_START */
 					decoding_error(path, f);
 					log_fatal("Internal inconsistency: Info size %u/%u!\n", blockmax, v_pos + v_count);
@@ -2172,7 +2172,7 @@ static void state_read_content(struct snapraid_state* state, const char* path, S
 					/* LCOV_EXCL_STOP */
 				}
 
-				if (v_pos + v_count > blockmax) {
+				if (v_count > blockmax - v_pos) {
 					/* LCOV_EXCL_START */
 					decoding_error(path, f);
 					log_fatal("Internal inconsistency: Hole size %u/%u!\n", blockmax, v_pos + v_count);
